@@ -28,6 +28,10 @@ func coqCase(ctx *hx.Ctx, c Case, o Obs) (term, key string, nontrivial bool) {
 		term = coqRead(c, o)
 	case "chunk":
 		term = CoqChunkAs("CChunk", c, o)
+	case "json":
+		term = coqJSONAs("CJson", c, o)
+	case "merge", "build":
+		term = "COracle " + coqObs(Obs{Class: o.Class}) // no model: the outcome class is the whole observation
 	}
 	if strings.Contains(o.Msg, "loops") {
 		ctx.Count("tree.hardlink-loop-rejected")
@@ -49,12 +53,15 @@ func corpus() []Case {
 	cs = append(cs, footerSweep()...)
 	cs = append(cs, readCorpus()...)
 	cs = append(cs, ChunkCorpus("chunk")...)
+	cs = append(cs, mergeCorpus()...)
+	cs = append(cs, buildCorpus()...)
+	cs = append(cs, jsonCorpus("json")...)
 	cs = append(cs, treeCorpus()...)
 	return cs
 }
 
 func gen(r *hx.Rng, i int) Case {
-	switch r.Pick(3, 3, 3, 2, 3) {
+	switch r.Pick(3, 3, 3, 2, 2, 2, 3, 4) {
 	case 0:
 		return genFooter(r)
 	case 1:
@@ -63,6 +70,12 @@ func gen(r *hx.Rng, i int) Case {
 		return genRead(r)
 	case 3:
 		return GenChunk(r, "chunk")
+	case 4:
+		return genMerge(r)
+	case 5:
+		return genBuild(r)
+	case 6:
+		return genJSON(r, "json")
 	}
 	return genTree(r)
 }
